@@ -19,6 +19,19 @@ def run(ctx):
     engine_common.run_engine(ctx, ["C03:"], n_quick=3000, n_thorough=60000)
     # millisecond waits: a request granted while its millisecond-table entry is still parked gets no second terminal reply
     ms_common.run_ms(ctx, "wait-c03")
+    # routing across reconnects (the reply of a request whose connection died goes to the connection that announced the same client id):
+    # the connection-lifetime harness of C18, read for its C03 monitors (the M-CONN differential runs with it)
+    from props import c18
+    exe = ctx.build_harness("server", only=c18.CONN_FILES)
+    if exe:
+        outdir = ctx.run_harness(exe, "conn", 50 if ctx.tier == "quick" else 600, extra={"VERIF_CONN_RISKY_EVERY": "0"}, timeout=900)
+        if outdir:
+            dis = ctx.diff(outdir, "conn", classify=c18.classify)
+            c18.read_monitor(ctx, outdir, "conn", ["C03:"])
+            if dis:
+                d = dis[0]
+                ctx.broken.append({"kind": "correspondence", "name": "M-CONN vs real Binary/TextServerProtocol (E-io)",
+                                   "detail": f"{len(dis)} of the lifetimes disagree; first: {c18.first_divergence(d[1], d[2], d[3])} ops={d[1][:1200]}"})
     if ctx.tier == "thorough":
         process_level_race(ctx)
     ctx.assumptions.append("replies are produced through the in-memory result callback (MemWaiterServerProtocol); binary/text framing of replies (late-reply filter) is C18/C14 territory")
